@@ -482,7 +482,11 @@ class Set(Kind):
 
     def unwrap(self, value, st=None):
         if isinstance(value, VSet):
+            if value.arr is None:
+                return [z3.K(self.ek.sorts()[0], z3.BoolVal(False))]
             return [value.arr]
+        if isinstance(value, (VCList, VTuple)) and not value.items:
+            return [z3.K(self.ek.sorts()[0], z3.BoolVal(False))]
         raise Unsupported('cannot store %r as %r' % (value, self))
 
     def __repr__(self):
@@ -599,22 +603,57 @@ def any_is_none(t):
     return t == z3.Const('any_none', AnySort())
 
 
-def any_axioms():
-    """facts about the injections, added to every path that uses Any"""
+INJECTIONS = {'any_of_int': 1, 'any_of_str': 2, 'any_of_bytes': 3, 'any_of_ref': 4, 'any_of_bool': 5, 'any_of_exc': 6}
+
+
+def any_axioms(formulas=()):
+    """ground instances of the facts about the injections into Any for every injection term occurring in `formulas`:
+    f(t) is not None, f is injective (through an inverse), different injections have different tags.  Quantifier-free."""
     A = AnySort()
     none = z3.Const('any_none', A)
-    i = z3.Int('ai!')
-    s = z3.String('as!')
-    r = z3.Const('ar!', RefSort())
-    b = z3.Bool('ab!')
-    ax = []
-    for nm, var in (('any_of_int', i), ('any_of_str', s), ('any_of_bytes', s), ('any_of_ref', r), ('any_of_bool', b)):
-        key = (nm, str(var.sort()), str(A))
-        if key in _FN:
-            f = _FN[key]
-            inv = fn(nm + '_inv', A, var.sort())
-            ax.append(z3.ForAll([var], z3.And(f(var) != none, inv(f(var)) == var)))
+    tag = fn('any_tag', A, z3.IntSort())
+    seen, apps = set(), []
+    stack = list(formulas)
+    while stack:
+        t = stack.pop()
+        k = t.get_id()
+        if k in seen:
+            continue
+        seen.add(k)
+        if z3.is_app(t):
+            nm = t.decl().name()
+            if nm in INJECTIONS and t.num_args() == 1:
+                apps.append((nm, t))
+            stack.extend(t.children())
+        elif z3.is_quantifier(t):
+            stack.append(t.body())
+    ax = [tag(none) == 0]
+    quantified = set()
+    for nm, t in apps:
+        arg = t.arg(0)
+        inv = fn(nm + '_inv', A, arg.sort())
+        if _has_var(arg):
+            if nm not in quantified:
+                quantified.add(nm)
+                v = z3.Const('inj!' + nm, arg.sort())
+                f = t.decl()
+                ax.append(z3.ForAll([v], z3.And(f(v) != none, inv(f(v)) == v, tag(f(v)) == INJECTIONS[nm])))
+            continue
+        ax.append(z3.And(t != none, inv(t) == arg, tag(t) == INJECTIONS[nm]))
     return ax
+
+
+def _has_var(t):
+    stack, seen = [t], set()
+    while stack:
+        x = stack.pop()
+        if x.get_id() in seen:
+            continue
+        seen.add(x.get_id())
+        if z3.is_var(x):
+            return True
+        stack.extend(x.children())
+    return False
 
 
 def coerce(v, kind):
